@@ -168,8 +168,12 @@ def run_check(prop, tier):
     single = [c for c in cases if len(c["methods"]) == 1]
     gated = [c for c in cases if any(f["kind"] == "gated" for f in c["faults"])]
     since = [c for c in cases if c.get("since")]
+    # a single monitor_cond_since monitor, found = true, the reply held back while others commit, and a second loss of
+    # the connection: always run, three times each (the interleaving inside the held reply is the scheduler's)
+    held = [c for c in since if len(c["methods"]) == 1 and c["faults"][0]["kind"] == "gated" and len(c["faults"]) == 2]
     sel = (gated + [c for c in multi if c not in gated and not c.get("since")][:160] + [c for c in single if c not in gated and not c.get("since")][:50]
            + [c for c in since if len(c["methods"]) == 1][:30] + [c for c in since if len(c["methods"]) > 1][:40]) if tier == "quick" else cases
+    sel = sel + held * 2
     res = run_shards(vh, sel)
     lcov, lcases = leader_model_check()
     lsh = [lcases[i::8] for i in range(8)]
